@@ -270,4 +270,11 @@ example :
     r.keys.map (fun kp => (kp.1.family, kp.2)) = [(1, 0), (3, 1), (1, 2), (3, 1)] := by
   decide
 
+/-- **Accepted settings are usable** (full statement).  On the current `/repo` (fix c31bfee: kind checks in `_make_config`,
+range / type guards in `blake2b.__init__` and `gclmulchunker.__init__`) the hypothesis of `accept_implies_usable_if_fixed` is
+discharged from the regenerated adapter table by `decide`; if the guards are removed or weakened this proof stops compiling. -/
+theorem accept_implies_usable (s : Option Settings) (pw : Bool) (hacc : accept s pw = true) :
+    usable (runInit s pw).1 = true :=
+  accept_implies_usable_if_fixed (by decide) s pw hacc
+
 end Replicat.C17
